@@ -228,6 +228,26 @@ pub fn witness_d5_512_plies_overflow_state_stack() {
     }
 }
 
+/// native (test, real threads -- not a proof): the timer block of `command_go` (slice verif_timer_block).
+/// Whenever a budget exists and the search is not `infinite`, whether or not a depth limit came with it,
+/// the block arms a timer that clears the running flag; with a 200 ms budget the flag must be clear
+/// within 1.7 s.  Kani cannot compile this block (internal compiler error in the drop glue of
+/// JoinHandle: the catch_unwind intrinsic), hence a test.
+#[cfg_attr(verif_replay, test)]
+#[cfg(not(kani))]
+pub fn native_timer_block() {
+    for depth in [None, Some(3u8), Some(40u8)] {
+        let flag = Arc::new(AtomicBool::new(true));
+        let t0 = std::time::Instant::now();
+        verif_timer_block(Some(Duration::from_millis(200)), false, depth, &flag);
+        while flag.load(Relaxed) {
+            assert!(t0.elapsed() < Duration::from_millis(1700),
+                    "C13 (test): a budget of 200 ms was given (depth limit {:?}) but the running flag is still set after 1.7 s: no timer enforces the budget", depth);
+            thread::sleep(Duration::from_millis(2));
+        }
+    }
+}
+
 /// native (test): the `position` command as a whole on concrete inputs -- the glue around the slices:
 /// a refused FEN is an error and leaves NO position behind (not even a previously loaded one), an accepted
 /// one replaces it, `moves` are played on the new position, an illegal or malformed move is an error and
